@@ -281,7 +281,9 @@ func init() {
 					return false
 				}
 				a, b := g.Cond.Args[0], g.Cond.Args[1]
-				isDenom := func(t *Term) bool { return strings.HasSuffix(t.String(), "$msg).Denom") || strings.HasSuffix(t.String(), "$msg.Denom") }
+				isDenom := func(t *Term) bool {
+					return strings.HasSuffix(t.String(), "$msg).Denom") || strings.HasSuffix(t.String(), "$msg.Denom")
+				}
 				isBond := func(t *Term) bool {
 					found := false
 					t.Walk(func(x *Term) {
